@@ -9,6 +9,8 @@ NOTE = ("Trusted base: go/types, go/ssa, the VTA/CHA call graph (x/tools v0.29.0
         "it does not execute parsley code.")
 
 CLAIMED = {
+ "C12": dict(ref="§4 C12", technique="type-level parametricity: translation-coefficient inference (linear constraints over all integer SSA values, fields, parameters and interface method slots; union-find + propagation)",
+   text="Static inference of how every integer of the library moves with the file's base offset; consistency of the constraint system is a parametricity proof sketch that parsing is invariant under placement (same control flow and trees, positions shifted by the offset difference, line:column unchanged), for all inputs and placements. Also decides that no placement-dependent value leaks into text or is cached outside File/FileSet/results. Does not decide C11's line/column arithmetic."),
  "C01": dict(ref="§4 C01", technique="ownership dataflow on alternative lists + forward value flow of curtailing sets (field-based) + guard dominance on context resets + shape/operand analysis of ResultCache.Get",
    text="Static rules deciding four structural lemmas of the Frost-Hafiz-Callaghan argument, each a necessary condition of completeness, for every grammar and input: no aliasing in alternative lists, curtailing-set propagation through every combinator, context/merge-flag reset only after progress, and the cache reuse condition (stored context, faithful replay, direction and key range of the reuse test). Soundness/completeness of the returned trees as a whole is not decided."),
  "C03": dict(ref="§4 C03", technique="dominance/post-dominance pairing of lookup-run-save in memoizing parsers, def-use of the cache key, who-may-construct scan for non-empty IntSets, effect scan for nondeterminism sources, map-range shape classification",
